@@ -308,6 +308,96 @@ fn run_queue(script: &Value) -> Value {
     json!({"results": out})
 }
 
+/// two (or more) threads under a prescribed well-nested schedule: thread A performs `k` shared-memory
+/// steps, then thread B runs to completion, then A continues (k = null: B runs after A)
+#[cfg(pricelevel_verif)]
+fn run_concurrent(script: &Value) -> Value {
+    use std::sync::{Condvar, Mutex};
+    struct Sch {
+        turn: char,
+        a_steps: usize,
+        switch_at: Option<usize>,
+        b_done: bool,
+        switched: bool,
+    }
+    thread_local! { static WHO: std::cell::Cell<char> = const { std::cell::Cell::new('-') }; }
+    let price = script["price"].as_u64().unwrap();
+    let ns = Uuid::from_str(script["namespace"].as_str().unwrap()).unwrap();
+    let mut level = Arc::new(PriceLevel::new(price));
+    let generator = Arc::new(UuidGenerator::new(ns));
+    for op in script["setup"].as_array().unwrap() {
+        apply(&mut level, &generator, op);
+    }
+    let threads = script["threads"].as_array().unwrap().clone();
+    let switch_at = script["schedule"]["B"].as_u64().map(|x| x as usize);
+    let sch = Arc::new((Mutex::new(Sch { turn: 'A', a_steps: 0, switch_at, b_done: threads.len() < 2, switched: false }), Condvar::new()));
+    let s2 = sch.clone();
+    pricelevel::verif_hooks::set_yield_hook(Some(Box::new(move |_site| {
+        let who = WHO.with(|w| w.get());
+        if who != 'A' {
+            return;
+        }
+        let (m, cv) = &*s2;
+        let mut g = m.lock().unwrap();
+        if !g.b_done && g.switch_at == Some(g.a_steps) {
+            g.turn = 'B';
+            g.switched = true;
+            cv.notify_all();
+            while !g.b_done {
+                g = cv.wait(g).unwrap();
+            }
+        }
+        g.a_steps += 1;
+    })));
+    let mut handles = Vec::new();
+    for (i, op) in threads.iter().enumerate() {
+        let name = if i == 0 { 'A' } else { 'B' };
+        let mut l2 = level.clone();
+        let g2 = generator.clone();
+        let op2 = op.clone();
+        let sc = sch.clone();
+        handles.push(std::thread::spawn(move || {
+            WHO.with(|w| w.set(name));
+            let (m, cv) = &*sc;
+            if name == 'B' {
+                let mut g = m.lock().unwrap();
+                while g.turn != 'B' {
+                    g = cv.wait(g).unwrap();
+                }
+            }
+            let r = std::panic::catch_unwind(std::panic::AssertUnwindSafe(|| apply(&mut l2, &g2, &op2)));
+            let mut g = m.lock().unwrap();
+            if name == 'A' {
+                // A finished: if B has not run yet it runs now
+                g.turn = 'B';
+            } else {
+                g.b_done = true;
+                g.turn = 'A';
+            }
+            cv.notify_all();
+            drop(g);
+            match r {
+                Ok(v) => v,
+                Err(_) => json!({"panic": true}),
+            }
+        }));
+    }
+    let mut results = serde_json::Map::new();
+    for (i, h) in handles.into_iter().enumerate() {
+        let name = if i == 0 { "A" } else { "B" };
+        results.insert(name.to_string(), h.join().unwrap_or(json!({"panic": true})));
+    }
+    pricelevel::verif_hooks::set_yield_hook(None);
+    let (m, _) = &*sch;
+    let g = m.lock().unwrap();
+    json!({"threads": results, "state": observe(&level), "a_steps": g.a_steps, "switched_inside": g.switched})
+}
+
+#[cfg(not(pricelevel_verif))]
+fn run_concurrent(_script: &Value) -> Value {
+    json!({"error": "driver built without --cfg pricelevel_verif"})
+}
+
 fn main() {
     std::panic::set_hook(Box::new(|_| {}));
     let path = std::env::args().nth(1).expect("usage: pl-native <script.json>");
@@ -316,6 +406,7 @@ fn main() {
     let res = match script["kind"].as_str().unwrap_or("level") {
         "queue" => run_queue(&script),
         "order" => run_order(&script),
+        "concurrent" => run_concurrent(&script),
         _ => run_level(&script),
     };
     println!("{}", serde_json::to_string(&res).unwrap());
